@@ -131,6 +131,7 @@ Forms ==
   \cup {FixedAlias(FlagAliases[i][1], 37896 + 16 * FlagAliases[i][2]) : i \in 1..8}
   \cup {FixedAlias(ClrAliases[i][1], 38024 + 16 * ClrAliases[i][2]) : i \in 1..8}
 
+After(cpu, prev, form, units) == units
 Skipped(cpu, form, ops) == FALSE
 Unjudged(cpu, form, ops) == FALSE
 =============================================================================
